@@ -418,9 +418,12 @@ def template_lru_rule(res, fx):
                              'TrimLRUCache on the own table and tally), so both evict the same templates', floor=3)
     w = fx.fn1('muscle::TemplatingMessageIOGateway::FlattenHeaderAndMessage')
     r = fx.fn1('muscle::TemplatingMessageIOGateway::UnflattenHeaderAndMessage')
+    from msa import ip as IP
+    TG = r'^muscle::TemplatingMessageIOGateway::'
+
     def ops(f, table):
         out = {}
-        for c in f.walk():
+        for c in [c for g_ in IP.scope(fx, f, TG) for c in g_.walk()]:      # the cache maintenance block may have been extracted into a private member
             if c['k'] == 'CXXMemberCallExpr' and c.receiver() is not None and A.strip_casts(c.receiver()).get('n') == table:
                 m = (c.get('q') or '').split('::')[-1]
                 const = bool(c.get('cm'))
@@ -432,14 +435,16 @@ def template_lru_rule(res, fx):
     res.ob('TEMPLATE-LRU', r.where(), 'same set of cache-mutating Hashtable methods on both sides', wm == rm and 'GetAndMoveToFront' in wm, how='sender %s, receiver %s' % (sorted(wm), sorted(rm)), function=r.q,
            key='TEMPLATE-LRU|ops', message='the template caches are maintained differently: sender calls %s on _outgoingTemplates, receiver calls %s on _incomingTemplates (non-const methods); '
                                            'their LRU orders diverge and they evict different templates, after which a payload-only Message names a template the receiver has dropped' % (sorted(wm), sorted(rm)))
-    for (f, table, tally) in ((w, '_outgoingTemplates', '_outgoingTemplatesTotalSizeBytes'), (r, '_incomingTemplates', '_incomingTemplatesTotalSizeBytes')):
+    for (f0, table, tally) in ((w, '_outgoingTemplates', '_outgoingTemplatesTotalSizeBytes'), (r, '_incomingTemplates', '_incomingTemplatesTotalSizeBytes')):
+        f = next((g_ for g_ in IP.scope(fx, f0, TG) if any(c['k'] == 'CXXMemberCallExpr' and (c.get('q') or '').endswith('::PutAtFront') and c.receiver() is not None
+                                                            and A.strip_casts(c.receiver()).get('n') == table for c in g_.walk())), f0)
         trims = [c for c in P.calls(f, r'::TrimLRUCache$')]
         ok = bool(trims) and all(len(c.args()) >= 2 and A.strip_casts(c.args()[0]).get('n') == table and A.strip_casts(c.args()[1]).get('n') == tally for c in trims)
         puts = [c for c in f.walk() if c['k'] == 'CXXMemberCallExpr' and (c.get('q') or '').endswith('::PutAtFront') and c.receiver() is not None and A.strip_casts(c.receiver()).get('n') == table]
         adds = [x for x in f.walk() if x['k'] == 'CompoundAssignOperator' and x.get('op') == '+=' and A.strip_casts(x['ch'][0]).get('n') == tally]
         ok = ok and bool(puts) and bool(adds) and all(P.must_follow(f, p_, trims, escapes=P.escape_edges(f))[0] for p_ in puts) and all(P.must_follow(f, p_, adds, escapes=P.escape_edges(f))[0] for p_ in puts)
         res.ob('TEMPLATE-LRU', f.where(), '%s: PutAtFront on %s is followed by %s += size and TrimLRUCache(%s, %s)' % (f.q.split('::')[-1], table, tally, table, tally), ok, function=f.q,
-               key='TEMPLATE-LRU|%s|put-trim' % f.q, message='%s: a new template is not followed by the size tally update and TrimLRUCache on its own table/tally: the two caches no longer hold the same set' % f.q)
+               key='TEMPLATE-LRU|%s|put-trim' % f0.q, message='%s: a new template is not followed by the size tally update and TrimLRUCache on its own table/tally: the two caches no longer hold the same set' % f.q)
 
 
 STATUS_ONLY = ('IsError', 'IsOK', 'GetStatus', 'operator()', 'operator!')
